@@ -17,7 +17,7 @@ Open Scope Z_scope.
    nothing else is emitted. *)
 Theorem C09_layout :
   forall its consts0 labels0 compress r,
-    assemble_items its consts0 labels0 compress = Done r -> nonneg its -> NoDup (gnames its) -> layout_facts its r.
+    assemble_items its consts0 labels0 compress = Done r -> nonneg its -> layout_facts its r /\ NoDup (gnames its).
 Proof. exact pipeline_layout. Qed.
 Print Assumptions C09_layout.
 
